@@ -126,6 +126,42 @@ def check_chunking(ctx, f, sig, cuts, model):
     return None
 
 
+def check_consistency(ctx, f, sig, cuts, qs):
+    """Two chunkings of the same signals never yield different robustness at the same instant: the chunked run against the
+    run that feeds everything in one update (used where the values themselves are a known finding)."""
+    text, base = D.run_online(f, sig, [])
+    _, out = D.run_online(f, sig, cuts)
+    rep = {"kind": "consistency", "monitor": "onc", "spec": text, "formula": F.to_proto(f),
+           "signals": {v: [[str(t), x] for t, x in sig[v]] for v in sig}, "cuts": cuts_txt(cuts), "impl": out, "impl_one_update": base}
+    if base[0] != "ok":
+        return None
+    ctx.evaluations += 1
+    ctx.count("chunking-consistency(since)")
+    if out[0] != "ok":
+        return Violation("dense online update() raised %r with cuts %s, not when fed in one update: %s" % (out[1:], rep["cuts"], text), rep,
+                         stream="on-c/consistency")
+
+    def samples_of(o):
+        flat = [p for chunk in o[1] for p in chunk]
+        return [(Fraction(p[0]), p[1]) for p in flat if p[0] != float("inf")]
+    sa, sb = samples_of(out), samples_of(base)
+    if not sa or not sb:
+        return None
+    if any(b < a for (a, _), (b, _) in zip(sa, sa[1:])):
+        return Violation("concatenated online output has decreasing time stamps (cuts %s): %s" % (rep["cuts"], text), rep, stream="on-c/consistency")
+    lo, hi = max(sa[0][0], sb[0][0]), min(sa[-1][0], sb[-1][0])
+    for q in qs:
+        if q < lo or q > hi:
+            continue
+        x, y = D.step_value(sa, q), D.step_value(sb, q)
+        if x != x or y != y:
+            continue
+        if not common.num_eq(x, y):
+            return Violation("dense online: value at t=%s is %r with cuts %s and %r when everything is fed in one update: %s"
+                             % (q, x, rep["cuts"], y, text), rep, stream="on-c/consistency")
+    return None
+
+
 def gen_case(rng):
     g = D.DGen(rng, D.VARS[:2], D.DENSE_ON, max_bound=rng.choice([2, 4, 8]))
     f = g.formula(rng.choice([1, 1, 2, 3]))
@@ -151,6 +187,15 @@ def explore(ctx, rng, count):
                     "per_variable": pv}
             if disc.known_region(ctx, case, REGIONS):
                 ctx.skipped_known += 1
+                others = {k: fn for k, fn in REGIONS.items() if k != "dense-online-since"}
+                if region_since(case) and cuts and not disc.known_region(ctx, case, others):
+                    # finding F32 is about the values of since; that two chunkings never disagree can still be checked:
+                    # against the run that feeds everything at once
+                    v = check_consistency(ctx, f, sig, cuts, qs)
+                    if v is not None:
+                        ctx.violations.append(v)
+                        if len(ctx.violations) >= 3:
+                            return
                 continue
             ctx.evaluations += 1
             ctx.count("per-variable-chunking" if pv else ("chunks=%d" % (len(cuts) + 1) if len(cuts) < 4 else "chunks>=5"))
@@ -173,6 +218,9 @@ def replay(ctx, obj):
         if isinstance(cuts, dict) else [Fraction(c) for c in cuts]
     (_, dom, end), = D.model_query([(f, sig, [])])
     qs = D.query_times(sig, f, [], dom, end)
+    if obj.get("kind") == "consistency":
+        v = check_consistency(Ctx(ctx.id, ctx.tier, ctx.seed), f, sig, cuts, qs)
+        return (v is None), (v.what if v else "the chunked run agrees with the run fed in one update")
     (vals, _, _), = D.model_query([(f, sig, qs)])
     v = check_chunking(Ctx(ctx.id, ctx.tier, ctx.seed), f, sig, cuts, (qs, vals))
     return (v is None), (v.what if v else "online output agrees with the dense semantics on the replayed chunking")
